@@ -171,6 +171,35 @@ def canonical_equalities(fn):
     return n_sw
 
 
+def canonical_compound(fn):
+    """x = x + e  and  x += e  are one statement: the plain assignment whose right-hand side is `x OP e` (OP one of
+    + - *, x a plain variable, the built-in operator) is loaded as the compound assignment."""
+    n_rw = 0
+
+    def unwrap(e):
+        while isinstance(e, dict) and e.get("k") in ("Cast", "Paren") and e.get("c") and e.get("ck") not in ("static", "reinterpret", "const", "dynamic", "functional", "cstyle"):
+            e = e["c"][0]
+        return e
+    for part in (fn.get("inits"), fn.get("body")):
+        if part is None:
+            continue
+        for n in _walk(part):
+            if n.get("k") != "Bin" or not n.get("asg") or n.get("op") != "=" or not isinstance(n.get("c"), list) or len(n["c"]) != 2:
+                continue
+            lhs = unwrap(n["c"][0])
+            rhs = unwrap(n["c"][1])
+            if not (isinstance(lhs, dict) and lhs.get("k") == "Ref" and lhs.get("d") in ("Var", "Parm")):
+                continue
+            if not (isinstance(rhs, dict) and rhs.get("k") == "Bin" and rhs.get("op") in ("+", "-", "*") and not rhs.get("asg")):
+                continue
+            a = unwrap(rhs["c"][0])
+            if isinstance(a, dict) and a.get("k") == "Ref" and a.get("n") == lhs.get("n") and a.get("dl") == lhs.get("dl"):
+                n["op"] = rhs["op"] + "="
+                n["c"] = [n["c"][0], unwrap(rhs["c"][1])]
+                n_rw += 1
+    return n_rw
+
+
 def normalise(fn):
     """Rename the locals of `fn` (in place) to the pinned tree's names where the alignment is unambiguous."""
     if os.environ.get("VERIF_REFNAMES_RECORD"):
